@@ -36,7 +36,7 @@ fn model_of(g: &Graph<String, ()>) -> Model {
     lists.sort_by(|a, b| a.0.cmp(&b.0));
     for (_, l) in lists {
         for (u, v, w) in l {
-            m.edges.push(MEdge { u, v, w });
+            m.edges.push(MEdge { u, v, w, a: None });
         }
     }
     m
